@@ -29,7 +29,22 @@ QUERIES = [
     'p.id for p in P if x0 is None or p.a < x0',
     'p for p in P if p.b == x0 or p.a in x1',
     '(p.a, p.b) for p in P if coalesce(p.a, x0) > x1',
+    # plain Python helpers inlined by the translator; their free variables are module globals whose VALUE AND TYPE change between executions
+    # (they reach translator.vartypes only during translation, so only the sql cache key - not the query key - knows their types)
+    'p.id for p in P if helper_s(p)',
+    'p.id for p in P if helper_a(p) or p.b == x0',
 ]
+HELPER_QIDS = (14, 15)
+WANTED_S = 'a'
+WANTED_A = 1
+
+
+def helper_s(p):
+    return p.s == WANTED_S
+
+
+def helper_a(p):
+    return p.a == WANTED_A
 
 # parameter value pools per query (values AND types vary: int / str / None / bool / tuples of several lengths)
 POOLS = {
@@ -47,6 +62,8 @@ POOLS = {
     11: {'x0': [None, 1, 5]},
     12: {'x0': [0, 2, None], 'x1': [(1,), (1, 5), ()]},
     13: {'x0': [0, 1], 'x1': [0, 1, 5]},
+    14: {'w': ['a', 'ab', None, '']},
+    15: {'w': [1, 5, None, 0], 'x0': [0, 2]},
 }
 HOWS = ('all', 'all', 'all', 'count', 'exists', 'first', 'page', 'limit2')
 RAW = [
@@ -65,10 +82,11 @@ INITIAL_ROWS = [
 ]
 
 
-def gen_history(rng, n, raw=True):
+def gen_history(rng, n, raw=True, helpers=False):
     """A random history: a few queries re-used with different parameter values / types, interleaved with writes.
     Session-level writes touch rows 3..5 (each deleted at most once), raw SQL touches rows 1..2, so that no step raises."""
-    qids = rng.sample(range(len(QUERIES)), rng.choice((2, 3, 4)))
+    qids = rng.sample(range(len(QUERIES) if helpers else HELPER_QIDS[0]), rng.choice((2, 3, 4)))
+    if helpers and rng.random() < 0.5 and not (set(qids) & set(HELPER_QIDS)): qids[0] = rng.choice(HELPER_QIDS)
     h = []
     alive = [3, 4, 5]
     for _ in range(n):
@@ -180,7 +198,8 @@ def run_history(history, warm, instrument=False):
             try:
                 if kind == 'query':
                     _, qid, params, how = step
-                    g = {'P': P, 'coalesce': coalesce}
+                    g = {'P': P, 'coalesce': coalesce, 'helper_s': helper_s, 'helper_a': helper_a}
+                    if qid in HELPER_QIDS: globals()['WANTED_S' if qid == 14 else 'WANTED_A'] = params['w']
                     g.update({k: (tuple(v) if isinstance(v, list) and qid != 3 else v) for k, v in params.items()})
                     del tlog[:], slog[:], calls[:]
                     err, rows, q = None, None, None
